@@ -454,6 +454,7 @@ def install(vm):
     add(lambda n: n == '@memcmp', h_memcmp)
     add(lambda n: n == '@bcmp', h_bcmp)
     add(lambda n: n == '@strlen', h_strlen)
+    add(lambda n: n == '@getenv', lambda vm, st, name, argv, ins: 0)      # no environment variable is set
     add(lambda n: n in ('@abort', '@exit', '@_exit') or 'std7process5abort' in n or '3std3sys.*abort_internal' in n, h_abort)
     add(lambda n: _panic_re.search(n) is not None, h_panic, True)
     add(lambda n: n.startswith('@llvm.load.relative'), h_load_relative)
